@@ -554,6 +554,7 @@ orc_program_add_constant_str (OrcProgram *program, int size,
   orc_int64 val_i;
   double val_d;
   int j;
+  char literal_name[80]; /* as in orc_parse_handle_opcode() */
 
   i = ORC_VAR_C1 + program->n_const_vars;
 
@@ -589,13 +590,15 @@ orc_program_add_constant_str (OrcProgram *program, int size,
     }
   }
 
+  /* literals written in the code (the parser names them "_<size>.<text>")
+   * share a slot with an equal constant; a constant declared under a name of
+   * its own - "_uno" as much as "uno" - keeps that name, or the instructions
+   * using it cannot find it */
+  snprintf (literal_name, sizeof (literal_name), "_%d.%s", size, value);
   for(j=0;j<program->n_const_vars;j++){
-    /* literals written in the code (the parser names them "_<size>.<text>")
-     * share a slot with an equal constant; a constant declared under a name of
-     * its own keeps that name, or the instructions using it cannot find it */
     if (program->vars[ORC_VAR_C1 + j].value.i == program->vars[i].value.i &&
         program->vars[ORC_VAR_C1 + j].size == size &&
-        (name[0] == '_' ||
+        (strcmp (name, literal_name) == 0 ||
          strcmp (program->vars[ORC_VAR_C1 + j].name, name) == 0)) {
       return ORC_VAR_C1 + j;
     }
